@@ -187,6 +187,7 @@ type peerReply struct {
 	Defect  bool // a member with one structural defect (id still resolvable)
 	Code    int  // error code of an error reply
 	Result  string // exact result text of a result reply ("" not recorded)
+	ForID   string // client side: the id the reply bears
 }
 
 type srvWorld struct {
@@ -1556,6 +1557,9 @@ func (w *srvWorld) checkResp(m *member, o respObj) string {
 			return fmt.Sprintf("%s: response %+v does not carry the handler's result %s", m.Tag, o, m.Result)
 		}
 	case mUnknownCall, mRPCOther:
+		if o.ID == m.ID && o.HasErr && w.cancelRequested(m) {
+			return "" // named by a CancelRequest while in flight: a cancellation error is as good (no handler runs either way)
+		}
 		if o.ID != m.ID || !o.HasErr || o.Code != -32601 {
 			return fmt.Sprintf("%s: want -32601 with id %s, got %+v", m.Tag, m.ID, o)
 		}
@@ -1563,7 +1567,9 @@ func (w *srvWorld) checkResp(m *member, o respObj) string {
 		if o.ID == m.ID && o.HasErr && w.cancelRequested(m) {
 			return "" // cancelled before it got a slot
 		}
-		if o.ID != m.ID || !o.HasRes || !strings.Contains(o.Result, `"methods"`) {
+		if o.ID != m.ID || !o.HasRes || !strings.Contains(o.Result, `"h"`) {
+			// (what the info looks like is C17's business; that it is a result which
+			// names the assigner's one method tells it from a stray object)
 			return fmt.Sprintf("%s: want server info with id %s, got %+v", m.Tag, m.ID, o)
 		}
 	case mInvalid:
@@ -1655,8 +1661,10 @@ func (w *srvWorld) checkObservers() {
 			return a == nil || a == b || errors.Is(a, ErrInjected) == errors.Is(b, ErrInjected)
 		}
 		if o.UseErr {
-			if !sameErr(o.Err, w.status.Err) {
-				r.Fail("wrong-status", "%s: Wait returned %v but WaitStatus reported %+v for the same stop", o.Name, o.Err, *w.status)
+			// (C08 speaks of WaitStatus; what Wait returns besides returning at the
+			// right time is not judged, except that a failed channel is an error)
+			if w.status.Err != nil && o.Err == nil {
+				r.Fail("wrong-status", "%s: Wait returned nil but WaitStatus reported %+v for the same stop", o.Name, *w.status)
 				return
 			}
 			continue
